@@ -186,3 +186,94 @@ def lifeCheckAll (s : St) : List String :=
       s.workers.any (fun w => w.wid < s.cfg.nWorkers && !w.log.contains .begin) then ["ready_after_begin"] else [])
 
 end WindVerif.Pool
+
+namespace WindVerif.Pool
+
+/-! ## liveness side (C02): no deadlock, termination -/
+
+/-- the work-queue bound does not block `__exit__`'s stop orders: a plain pool (every listed worker is alive and takes its
+stop order), or unbounded, or at least one slot per worker (true for `None` and for the default `1.0`).  Outside this
+region D19 (a recorded finding) is reachable: workers that retired unreplaced take no stop order. -/
+def ExitCap (cfg : Cfg) : Prop :=
+  cfg.factory = false ∨
+  match cfg.workCap with
+  | none => True
+  | some c => c = 0 ∨ cfg.nWorkers ≤ c
+
+/-- well-formed configuration of the property -/
+def WellCfg (cfg : Cfg) : Prop :=
+  1 ≤ cfg.nWorkers ∧ (∀ c, cfg.resCap = some c → 1 ≤ c) ∧ (∀ q, cfg.quota = some q → 1 ≤ q ∧ cfg.factory = true) ∧
+  (cfg.factory = true → cfg.quota.isSome ∨ True)
+
+def inLoop (s : St) : Bool :=
+  match s.cpc with
+  | .rdSending | .rdDataCnt | .qsize1 | .lockAcq | .qsize2 | .getNowait | .lockRel | .getBlock
+  | .flowClear | .flowIsSet | .flowSet => true
+  | _ => false
+
+def getPath (s : St) : Bool :=
+  match s.cpc with
+  | .qsize1 | .lockAcq | .qsize2 | .getNowait | .lockRel | .getBlock => true
+  | _ => false
+
+def exitPhase (s : St) : Bool :=
+  match s.cpc with
+  | .exitPut _ | .exitJoin _ | .done => true
+  | _ => false
+
+def noneCount (q : List (Option Nat)) : Nat := (q.filter Option.isNone).length
+
+def wpc (s : St) (wid : Nat) : Option WPc := (getWorker s wid).map (·.pc)
+
+/-- executable candidate clauses of the liveness invariant (fuzzed; the proof may need to adjust them) -/
+def liveCheck (s : St) : List String :=
+  let bad (name : String) (b : Bool) : List String := if b then [] else [name]
+  let cIn := match s.cpc with | .qsize2 | .getNowait | .lockRel => true | _ => false
+  let started (wid : Nat) := match wpc s wid with | some .notStarted => false | some _ => true | none => false
+  -- L1 lock discipline
+  bad "L1c" ((s.lock == some .c) == cIn) ++
+  bad "L1w" (s.workers.all (fun w => (s.lock == some (.w w.wid)) == (w.pc == .putNowait || w.pc == .lockRel))) ++
+  bad "L1o" (s.lock != some .f && s.lock != some .r) ++
+  -- L2 every listed worker is started once the enter phase is over (or R is about to start it)
+  bad "L2" ((match s.cpc with | .enterStart _ => true | _ => false) ||
+            s.procs.all (fun wid => started wid || s.rpc == .start wid)) ++
+  bad "L2e" (match s.cpc with
+             | .enterStart i => (List.range s.procs.length).all (fun j =>
+                 match s.procs[j]? with | some wid => (started wid) == decide (j < i) | none => true)
+             | _ => true) ++
+  -- L3 a listed worker that has exited: plain pool only in the exit phase; factory: its id waits for / is at the replace thread
+  bad "L3" (s.procs.all (fun wid => !(wpc s wid == some .exited) || exitPhase s ||
+            (s.cfg.factory && (s.replQ.contains (some wid) || s.rpc == .join wid)))) ++
+  bad "L3n" (exitPhase s || !(s.workQ.contains none)) ++
+  -- L4 the replace thread lives exactly from its start to the consumption of its stop token
+  bad "L4a" (!s.cfg.factory || !(inLoop s || postLoop s && s.cpc != .rJoin && s.cpc != .rStopSet ||
+             (match s.cpc with | .fInitSet | .wrSending | .wrDataCnt | .fStart => true | _ => false)) ||
+             (s.rAlive && !(s.replQ.contains none))) ++
+  bad "L4b" (s.rAlive == (s.rpc != .idle)) ++
+  bad "L4c" (!(s.cpc == .rStopSet || s.cpc == .rJoin) || !s.rAlive || s.replQ.contains none) ++
+  bad "L4d" (s.cfg.factory || (!s.rAlive && s.replQ == [])) ++
+  bad "L4e" (!(preStart s && s.cpc != .fInitSet && s.cpc != .wrSending && s.cpc != .wrDataCnt && s.cpc != .fStart && s.cpc != .rStart) ||
+             exitPhase s || !s.rAlive) ++
+  -- L5 wake-up token: feeder finished, everything emitted, consumer looking for results it has not found yet → a token waits
+  bad "L5" (!(inLoop s && getPath s && s.batch == [] && !s.woken && s.fpc == .idle && s.finished == s.fTotal) ||
+            s.resQ.contains none) ++
+  -- L6 the reorder buffer never holds the chunk it waits for
+  bad "L6" (!(s.buffer.contains s.wf)) ++
+  -- L7 flow control engaged only with a full reorder buffer
+  bad "L7" (!(inLoop s && !s.fRun && s.cpc != .flowIsSet && s.cpc != .flowSet) || bufferFull s) ++
+  -- L8 exit phase: no chunk anywhere, the stop orders match the live listed workers
+  bad "L8a" (!exitPhase s || (chunksOf s.workQ == [] && !s.fAlive && !s.rAlive)) ++
+  bad "L8b" (match s.cpc with
+             | .exitJoin _ | .done =>
+               decide (noneCount s.workQ + (s.procs.filter (fun wid => wpc s wid == some .exited)).length ≥ s.procs.length)
+             | _ => true) ++
+  -- L9 a worker that is neither started nor exited holds nothing and waits at a well-defined pc
+  bad "L9" (s.workers.all (fun w => (w.held.isSome == (w.pc == .lockAcq || w.pc == .putNowait || w.pc == .putBlock ||
+            (w.pc == .lockRel && w.full))))) ++
+  -- feeder events
+  bad "L10" (!(s.fpc == .runWait || s.fpc == .stopIsSet) || !s.fStop)
+
+/-- stuck: nobody can move although the caller has not finished -/
+def stuck (s : St) : Bool := s.cpc != .done && (enabledTids s).isEmpty
+
+end WindVerif.Pool
